@@ -132,7 +132,87 @@ fn check_program(ast: &Ast, vars: &[(&'static str, RV)], ci: usize, st: &mut Sta
             "order-or-effects-mismatch",
             format!("{} / variables {:?} / call log {:?}", res_dbg(&real), vars_real, log_real),
         ));
+        return;
     }
+    let tree = match guarded(|| build_operator_tree::<DefaultNumericTypes>(&src)) {
+        Ok(Ok(t)) => t,
+        _ => return,
+    };
+    // the same program through the shared-context walker: same order, same calls, stops at the first
+    // failure (an assignment that is reached fails there)
+    {
+        let mut ri = ref_context(vars);
+        let iref = ri.eval(ast, Mode::Immutable);
+        let log_s: Log = Arc::new(Mutex::new(Vec::new()));
+        let cs = real_context(vars, &log_s);
+        match guarded(|| tree.eval_with_context(&cs)) {
+            Err(p) => {
+                st.violation(mk("panic", format!("shared context: panic at {}: {}", p.location, p.message)));
+                return;
+            },
+            Ok(r) => {
+                st.evaluations += 1;
+                if !ri.unclaimed {
+                    let ok = result_matches(&iref, &r)
+                        || match (&ri.opassign_alt, &r) {
+                            (Some(alt), Err(e)) => err_matches(alt, e),
+                            _ => false,
+                        };
+                    let got_log = log_keys(&log_s.lock().unwrap());
+                    if !ok || got_log != log_keys(&ri.log) {
+                        st.violation(Violation {
+                            property: ID,
+                            kind: "shared-context-order-or-calls-mismatch".into(),
+                            input: json!({"axis": "hashmap-shared", "source": src, "context": ci}),
+                            expected: format!("eval_with_context: {} / call log {:?}", describe(&iref), log_keys(&ri.log)),
+                            actual: format!("{} / call log {:?}", res_dbg(&r), got_log),
+                            test: test_wrap("c08_replay", &ctx_test_src(vars, &src, &expected)),
+                        });
+                        return;
+                    }
+                    st.count("shared-context-runs");
+                }
+            },
+        }
+    }
+    // every typed mutable view evaluates the program exactly once too: same final variables, same calls
+    // (only observable for programs that have effects)
+    let initial: Vec<(String, String)> = ref_context(vars).vars.iter().map(|(k, v)| (k.clone(), v.key())).collect();
+    if rc.log.is_empty() && vars_ref == initial {
+        return;
+    }
+    macro_rules! typed_once {
+        ($name:literal, $m:ident) => {{
+            let log_t: Log = Arc::new(Mutex::new(Vec::new()));
+            let mut ct = real_context(vars, &log_t);
+            match guarded(|| tree.$m(&mut ct).map(|_| ())) {
+                Err(p) => {
+                    st.violation(mk("panic", format!("{}: panic at {}: {}", $name, p.location, p.message)));
+                    return;
+                },
+                Ok(_) => {
+                    st.evaluations += 1;
+                    let v = observe_vars(&ct);
+                    let l = log_keys(&log_t.lock().unwrap());
+                    if v != vars_real || l != log_real {
+                        st.violation(mk(
+                            concat!("typed-view-effects-differ/", $name),
+                            format!("{}: variables {:?} / call log {:?}", $name, v, l),
+                        ));
+                        return;
+                    }
+                },
+            }
+        }};
+    }
+    typed_once!("eval_string_with_context_mut", eval_string_with_context_mut);
+    typed_once!("eval_float_with_context_mut", eval_float_with_context_mut);
+    typed_once!("eval_int_with_context_mut", eval_int_with_context_mut);
+    typed_once!("eval_number_with_context_mut", eval_number_with_context_mut);
+    typed_once!("eval_boolean_with_context_mut", eval_boolean_with_context_mut);
+    typed_once!("eval_tuple_with_context_mut", eval_tuple_with_context_mut);
+    typed_once!("eval_empty_with_context_mut", eval_empty_with_context_mut);
+    st.count("typed-views-checked");
 }
 
 // ---------------------------------------------------------------------------------------------
@@ -387,6 +467,7 @@ fn scaling(thorough: bool) -> Stats {
 
 pub fn run(cfg: &Cfg) -> Report {
     let (n_hash, n_script2, n_script1) = cfg.tier.pick((3, 1, 2), (3, 2, 3));
+    let thorough = cfg.tier == Tier::Thorough;
     let counts = progs::counts(3);
     let lv = progs::leaves();
     let ctxs = progs::initial_contexts();
@@ -398,6 +479,10 @@ pub fn run(cfg: &Cfg) -> Report {
             for idx in r {
                 let ast = progs::unrank(&counts, &lv, n, idx);
                 for (ci, vars) in ctxs.iter().enumerate() {
+                    // quick tier: the fourth context (x = empty tuple) for programs of <= 2 operator nodes
+                    if ci == 3 && n >= 3 && !thorough {
+                        continue;
+                    }
                     check_program(&ast, vars, ci, &mut st);
                 }
                 st.count("programs");
@@ -436,7 +521,7 @@ pub fn run(cfg: &Cfg) -> Report {
     Report {
         property: ID,
         level: "model_checking",
-        rule: format!("axis 1: every program with <= {n_hash} operator nodes over {{x = e, y = e, x += e, x &&= e, r(e), s(e), typeof(e) (a failing user function that shadows a total builtin), -e, e + (missing operand), e + e, e && e, e || e, e / e, (e, e), (e; e)}} and leaves {{1, 0, true, false, x, unbound u, 1/0, true+1}} x 3 initial contexts on the real HashMapContext with recording functions; axis 2: the same programs (<= {n_script2} operator nodes with <= 2 deviations, <= {n_script1} with <= 1) against a scripted Context whose i-th answer (get_value / call_function / set_value) deviates from the default as chosen by a deviation-bounded depth-first exploration; oracle: reference interpreter driven by the same script (result, final variables, ordered call log with arguments, ordered sequence of context interactions). Plus scaling families: chains, tuples, sums, op-assign sequences and nested arguments of n recording calls for every n in 1..20 and up to 129 (quick) / 1..40 and up to 400 (thorough) with the failing call at every position (chosen positions above 20). States = (program, context) pairs explored on axis 2, transitions = scripted executions. Non-trivial = failing after effects, or >= 2 logged calls, or a deviating script; each (program, context, script) triple is enumerated exactly once, so the counter counts distinct cases"),
+        rule: format!("axis 1: every program with <= {n_hash} operator nodes over {{x = e, y = e, x += e, x &&= e, r(e), s(e), typeof(e) (a failing user function that shadows a total builtin), -e, e + (missing operand), e + e, e && e, e || e, e / e, (e, e), (e; e)}} and leaves {{1, 0, true, false, x, unbound u, (), 1/0, true+1}} x 4 initial contexts (x unbound / int / boolean / empty tuple; the fourth up to 2 operator nodes in the quick tier) on the real HashMapContext with recording functions, each program through eval_with_context_mut, through the shared-context walker (result and call log against the reference in read-only mode) and, if it has effects, through all 7 typed mutable views (same final variables and call log: evaluated exactly once); axis 2: the same programs (<= {n_script2} operator nodes with <= 2 deviations, <= {n_script1} with <= 1) against a scripted Context whose i-th answer (get_value / call_function / set_value) deviates from the default as chosen by a deviation-bounded depth-first exploration; oracle: reference interpreter driven by the same script (result, final variables, ordered call log with arguments, ordered sequence of context interactions). Plus scaling families: chains, tuples, sums, op-assign sequences and nested arguments of n recording calls for every n in 1..20 and up to 129 (quick) / 1..40 and up to 400 (thorough) with the failing call at every position (chosen positions above 20). States = (program, context) pairs explored on axis 2, transitions = scripted executions. Non-trivial = failing after effects, or >= 2 logged calls, or a deviating script; each (program, context, script) triple is enumerated exactly once, so the counter counts distinct cases"),
         nontrivial_set: "counter:nontrivial-distinct",
         exhaustive: true,
         bound_completed: format!("programs of {n_hash} operator nodes; 2 deviations up to {n_script2} nodes, 1 deviation up to {n_script1}"),
